@@ -13,8 +13,10 @@
    F is the float arithmetic used by ranges with a float delta: every
    theorem holds for every F.  Comparison results of the model are -1/0/1
    (memcmp/strcmp are modelled by their sign). *)
-From Coq Require Import List ZArith.
-From RtoscV Require Import ArgVal.AvModel ArgVal.AvSpec ArgVal.AvCmpProofs ArgVal.AvRegress.
+From Coq Require Import List ZArith Reals.
+From Flocq Require Import Core IEEE754.BinarySingleNaN IEEE754.Binary IEEE754.Bits.
+From RtoscV Require Osc.OscModel.
+From RtoscV Require Import ArgVal.AvModel ArgVal.AvSpec ArgVal.AvCmpProofs ArgVal.AvRegress ArgVal.AvFloat ArgVal.AvFlocq.
 Import ListNotations.
 Local Open Scope Z_scope.
 
@@ -117,19 +119,47 @@ Theorem C16_compress_invariant : forall F a a' v b vb addr,
   vals_cmp F a a' (Zlength a) (Zlength a') = Some 0 /\
   vals_eq F a a' (Zlength a) (Zlength a') = Some true /\
   iterate F a (Zlength a) = iterate F a' (Zlength a') /\
-  avmessage F addr a (Zlength a) = avmessage F addr a' (Zlength a').
+  forall buf, avmessage F buf addr a (Zlength a) = avmessage F buf addr a' (Zlength a').
 Proof. exact law_compress. Qed.
 
 (* what iteration yields / the message built from the list are functions of the
    written-out values alone (NaN allowed): iteration yields exactly those
-   values, the message is the one rtosc_amessage builds from their tags and
-   payloads *)
-Theorem C16_iterate_message : forall F a a' v addr,
-  denote F a v -> denote F a' v ->
+   values; the message rtosc_avmessage builds is the OSC 1.0 encoding
+   (Osc/OscModel.enc_spec, the Spec encoder of C01) of the address, the tags of
+   the written-out values and the payloads of those that have one - the NULL
+   probe returns its size, a destination that is large enough receives exactly
+   these bytes at its front and is untouched behind them.  A top-level array
+   is sent as the bare tag 'a' (97) without payload: its elements are NOT in
+   the message ([vtype], [payloads_of] in ArgVal/AvSpec.v).  Precondition
+   [payloads_of v = Some ps]: no top-level string is NULL. *)
+Theorem C16_iterate_message : forall F a a' v addr ps,
+  denote F a v -> denote F a' v -> payloads_of v = Some ps ->
+  let enc := OscModel.enc_spec addr (map vtype v) ps in
   iterate F a (Zlength a) = Some v /\ iterate F a' (Zlength a') = Some v /\
-  avmessage F addr a (Zlength a) = message_of addr v /\
-  avmessage F addr a' (Zlength a') = message_of addr v.
+  avmessage F None addr a (Zlength a) = Some (OscModel.zlen enc, None) /\
+  avmessage F None addr a' (Zlength a') = Some (OscModel.zlen enc, None) /\
+  forall buf, OscModel.zlen enc <= OscModel.zlen buf ->
+    avmessage F (Some buf) addr a (Zlength a) = Some (OscModel.zlen enc, Some (enc ++ skipn (length enc) buf)) /\
+    avmessage F (Some buf) addr a' (Zlength a') = Some (OscModel.zlen enc, Some (enc ++ skipn (length enc) buf)).
 Proof. exact law_compress_iter_msg. Qed.
+
+(* for every destination (also one that is too small: zero-filled, 0 returned)
+   rtosc_avmessage is rtosc_amessage on those tags and payloads *)
+Theorem C16_message_is_osc_encoding : forall F addr a va ps,
+  denote F a va -> payloads_of va = Some ps ->
+  let enc := OscModel.enc_spec addr (map vtype va) ps in
+  avmessage F None addr a (Zlength a) = Some (OscModel.zlen enc, None) /\
+  forall buf,
+    avmessage F (Some buf) addr a (Zlength a) =
+    if OscModel.zlen buf <? OscModel.zlen enc
+    then Some (0, Some (OscModel.zeros (OscModel.zlen buf)))
+    else Some (OscModel.zlen enc, Some (enc ++ skipn (length enc) buf)).
+Proof. exact avmessage_is_osc. Qed.
+
+(* the list of tags rtosc_avmessage keeps a payload for (its strchr) is exactly
+   has_reserved of rtosc.c *)
+Theorem C16_payload_tags_agree : forall t, has_reserved t = has_payload t.
+Proof. exact has_reserved_kind. Qed.
 
 (* a slot list stands for at most one list of values *)
 Theorem C16_denote_functional : forall F a v v', denote F a v -> denote F a v' -> v = v'.
@@ -141,6 +171,107 @@ Theorem C16_nonvacuous : forall F,
   denote F ex_compressed ex_values /\ denote F ex_plain ex_values /\ all_nonan ex_values /\
   ex_compressed <> ex_plain.
 Proof. exact nonvacuous. Qed.
+
+(* ---- floats against IEEE 754 (Flocq 4.1; proofs in ArgVal/AvFlocq.v).  These
+   are the only theorems of this file that mention Flocq; the axioms Print
+   Assumptions lists for them are the ones Flocq's own development brings. -------- *)
+
+(* the order key of two bit patterns that are not NaN compares as the IEEE
+   comparison of the floats they encode; +0 and -0 have the same key and
+   compare Eq; nothing else is identified *)
+Theorem C16_float_key_is_IEEE_order : forall a b, 0 <= a < 2 ^ 32 -> 0 <= b < 2 ^ 32 ->
+  isnan32 a = false -> isnan32 b = false ->
+  Bcompare 24 128 (b32_of_bits a) (b32_of_bits b) = Some (fkey32 a ?= fkey32 b).
+Proof. exact fkey32_Bcompare. Qed.
+
+Theorem C16_double_key_is_IEEE_order : forall a b, 0 <= a < 2 ^ 64 -> 0 <= b < 2 ^ 64 ->
+  isnan64 a = false -> isnan64 b = false ->
+  Bcompare 53 1024 (b64_of_bits a) (b64_of_bits b) = Some (fkey64 a ?= fkey64 b).
+Proof. exact fkey64_Bcompare. Qed.
+
+(* isnan32/64 is "unordered with everything" *)
+Theorem C16_float_nan_is_IEEE_unordered : forall a b, 0 <= a < 2 ^ 32 -> 0 <= b < 2 ^ 32 ->
+  isnan32 a = true \/ isnan32 b = true ->
+  Bcompare 24 128 (b32_of_bits a) (b32_of_bits b) = None.
+Proof. exact isnan32_Bcompare. Qed.
+
+Theorem C16_double_nan_is_IEEE_unordered : forall a b, 0 <= a < 2 ^ 64 -> 0 <= b < 2 ^ 64 ->
+  isnan64 a = true \/ isnan64 b = true ->
+  Bcompare 53 1024 (b64_of_bits a) (b64_of_bits b) = None.
+Proof. exact isnan64_Bcompare. Qed.
+
+(* the model's == and > (the ones eq_single / cmp_single use) are IEEE equality
+   and IEEE less-than with the operands swapped, for every pair of bit
+   patterns, NaN included *)
+Theorem C16_float_eq_gt_are_IEEE : forall a b, 0 <= a < 2 ^ 32 -> 0 <= b < 2 ^ 32 ->
+  feq32 a b = Beqb (B2BSN 24 128 (b32_of_bits a)) (B2BSN 24 128 (b32_of_bits b)) /\
+  fgt32 a b = Bltb (B2BSN 24 128 (b32_of_bits b)) (B2BSN 24 128 (b32_of_bits a)).
+Proof. exact feq32_Beqb. Qed.
+
+Theorem C16_double_eq_gt_are_IEEE : forall a b, 0 <= a < 2 ^ 64 -> 0 <= b < 2 ^ 64 ->
+  feq64 a b = Beqb (B2BSN 53 1024 (b64_of_bits a)) (B2BSN 53 1024 (b64_of_bits b)) /\
+  fgt64 a b = Bltb (B2BSN 53 1024 (b64_of_bits b)) (B2BSN 53 1024 (b64_of_bits a)).
+Proof. exact feq64_Beqb. Qed.
+
+(* floats numerically: whenever IEEE orders the two values (as c), cmp is c *)
+Theorem C16_numeric_float_IEEE : forall F x y c, 0 <= x < 2 ^ 32 -> 0 <= y < 2 ^ 32 ->
+  Bcompare 24 128 (b32_of_bits x) (b32_of_bits y) = Some c ->
+  vals_cmp F [SV 102 (VF x)] [SV 102 (VF y)] 1 1 = Some (z_of_cmp c).
+Proof. exact numeric_float_IEEE32. Qed.
+
+Theorem C16_numeric_double_IEEE : forall F x y c, 0 <= x < 2 ^ 64 -> 0 <= y < 2 ^ 64 ->
+  Bcompare 53 1024 (b64_of_bits x) (b64_of_bits y) = Some c ->
+  vals_cmp F [SV 100 (VD x)] [SV 100 (VD y)] 1 1 = Some (z_of_cmp c).
+Proof. exact numeric_double_IEEE64. Qed.
+
+(* ranges with a float delta, for the model run with Flocq's arithmetic (the
+   instance the correspondence run uses): the i-th value is
+   start (+) ((float)i (x) delta) in binary32 / binary64, round to nearest even *)
+Theorem C16_range_arg_flocq32 : forall d s i,
+  range_arg flocq_ops (SV 102 (VF d)) (SV 102 (VF s)) i =
+  Some (102, VF (bits_of_b32 (b32_plus mode_NE (b32_of_bits s)
+                                (b32_mult mode_NE (i2f32 i) (b32_of_bits d))))).
+Proof. exact range_arg_flocq32. Qed.
+
+Theorem C16_range_arg_flocq64 : forall d s i,
+  range_arg flocq_ops (SV 100 (VD d)) (SV 100 (VD s)) i =
+  Some (100, VD (bits_of_b64 (b64_plus mode_NE (b64_of_bits s)
+                                (b64_mult mode_NE (i2f64 i) (b64_of_bits d))))).
+Proof. exact range_arg_flocq64. Qed.
+
+(* ... which, when delta and start are finite and no step overflows, is the real
+   number rnd (start + rnd (rnd i * delta)) *)
+Theorem C16_range_arg_flocq32_real : forall d s i,
+  let rnd := round radix2 (SpecFloat.fexp 24 128) (round_mode mode_NE) in
+  let fd := b32_of_bits d in
+  let fs := b32_of_bits s in
+  let ri := rnd (IZR i) in
+  let p := rnd (ri * B2R 24 128 fd)%R in
+  let r := rnd (B2R 24 128 fs + p)%R in
+  is_finite 24 128 fd = true -> is_finite 24 128 fs = true ->
+  (Rabs ri < bpow radix2 128)%R -> (Rabs p < bpow radix2 128)%R -> (Rabs r < bpow radix2 128)%R ->
+  exists res, range_arg flocq_ops (SV 102 (VF d)) (SV 102 (VF s)) i = Some (102, VF (bits_of_b32 res)) /\
+              B2R 24 128 res = r /\ is_finite 24 128 res = true.
+Proof. exact range_arg_flocq32_real. Qed.
+
+Theorem C16_range_arg_flocq64_real : forall d s i,
+  let rnd := round radix2 (SpecFloat.fexp 53 1024) (round_mode mode_NE) in
+  let fd := b64_of_bits d in
+  let fs := b64_of_bits s in
+  let ri := rnd (IZR i) in
+  let p := rnd (ri * B2R 53 1024 fd)%R in
+  let r := rnd (B2R 53 1024 fs + p)%R in
+  is_finite 53 1024 fd = true -> is_finite 53 1024 fs = true ->
+  (Rabs ri < bpow radix2 1024)%R -> (Rabs p < bpow radix2 1024)%R -> (Rabs r < bpow radix2 1024)%R ->
+  exists res, range_arg flocq_ops (SV 100 (VD d)) (SV 100 (VD s)) i = Some (100, VD (bits_of_b64 res)) /\
+              B2R 53 1024 res = r /\ is_finite 53 1024 res = true.
+Proof. exact range_arg_flocq64_real. Qed.
+
+(* the laws for the instance the correspondence run executes *)
+Theorem C16_cmp_is_key_order_flocq : forall a b va vb,
+  denote flocq_ops a va -> denote flocq_ops b vb -> all_nonan va -> all_nonan vb ->
+  vals_cmp flocq_ops a b (Zlength a) (Zlength b) = Some (z_of_cmp (cmp_values va vb)).
+Proof. exact (vals_cmp_spec flocq_ops). Qed.
 
 (* ---- regressions: the functions as they were BEFORE the fix: commits (kept
    in ArgVal/AvRegress.v) violate the property; witnesses replayed on the
@@ -181,7 +312,7 @@ Proof. exact D23_compress_refuted. Qed.
    entry of 'true' (None in the model: that value has no payload) *)
 Theorem C16_old_D24_message_refuted :
   exists a v, denote F0 a v /\
-    avmessage_gen false F0 [47; 97] a (Zlength a) = None /\
-    message_of [47; 97] v = Some [47; 97; 0; 0; 44; 84; 105; 0; 0; 0; 0; 5] /\
-    avmessage F0 [47; 97] a (Zlength a) = message_of [47; 97] v.
+    avmessage_gen false F0 None [47; 97] a (Zlength a) = None /\
+    message_enc [47; 97] v = Some [47; 97; 0; 0; 44; 84; 105; 0; 0; 0; 0; 5] /\
+    avmessage F0 None [47; 97] a (Zlength a) = Some (12, None).
 Proof. exact D24_message_refuted. Qed.
